@@ -250,6 +250,41 @@ Section Psf.
       auto_derive. exact I.
   Qed.
 
+  (* the Rayleigh PSF integrated over the spherical cap of opening angle Psi
+     (solid-angle element 2 pi sin(psi) dpsi): the same closed form; over the
+     whole sphere (Psi = pi) it is 1 - exp(-pi^2/(2 sigma^2)), the documented
+     small-sigma approximation *)
+  Theorem psf_rayleigh_cap s Psi :
+    s <> 0 -> 0 <= Psi <= PI ->
+    is_RInt (fun r => 2 * PI * sin r * psf_rayleigh N (s * s) r) 0 Psi
+            (1 - exp (- (Psi * Psi) / (2 * (s * s)))).
+  Proof.
+    intros Hs HP.
+    assert (Hq : s * s <> 0) by (apply Rmult_integral_contrapositive_currified; exact Hs).
+    apply (is_RInt_ext (fun r => r / (s * s) * exp (- (r * r) / (2 * (s * s))))).
+    { intros r Hr. rewrite Rmin_left, Rmax_right in Hr by lra.
+      assert (Hsin : 0 < sin r) by (apply sin_gt_0; lra).
+      assert (Hsin' : sin r <> 0) by lra.
+      pose proof (K_psf_rayleigh e (s * s) r Hq Hsin') as K.
+      unfold N. rewrite K.
+      assert (X : forall E : R,
+                 r / (s * s) * E = 2 * PI * sin r * (/ (2 * PI * sin r) * (r / (s * s)) * E)).
+      { intros E. field. repeat split; [exact Hs | exact Hsin' | apply Rgt_not_eq, PI_RGT_0]. }
+      apply X. }
+    replace (1 - exp (- (Psi * Psi) / (2 * (s * s))))
+      with (minus (- exp (- (Psi * Psi) / (2 * (s * s)))) (- exp (- (0 * 0) / (2 * (s * s))))).
+    2:{ unfold minus, plus, opp; simpl.
+        replace (- (0 * 0) / (2 * (s * s))) with 0 by (field; exact Hs).
+        rewrite exp_0. ring. }
+    apply (is_RInt_derive (fun r => - exp (- (r * r) / (2 * (s * s))))).
+    - intros x _. auto_derive; [exact I|].
+      unfold Rdiv. generalize (exp (- (x * x) * / (2 * (s * s)))). intros E.
+      field. exact Hs.
+    - intros x _.
+      apply (ex_derive_continuous (fun r => r / (s * s) * exp (- (r * r) / (2 * (s * s))))).
+      auto_derive. exact I.
+  Qed.
+
   Theorem psf_nonneg s r : s <> 0 -> 0 < psf_gauss N (s * s) r.
   Proof.
     intros Hs.
